@@ -237,3 +237,88 @@ def for_in_vec(label, invariant):
         return [f"let mut {k} : usize = 0 ; while {k} < {v} . len ( )", G(invariant.replace("$K", k).replace("$V", v)),
                 "{", f"let {x} = & {v} [ {k} ] ; {k} += 1 ;", *body, "}"]      # index advanced first: `continue` cannot skip it
     return Rule("R2", "for $x in $v { $$body }", repl, why="for over &Vec -> indexed while (iteration order of slice::Iter)")
+
+
+# ---------------------------------------------------------------------------------------------------------------------
+# R14: `let f = |p, q: T| BODY;` whose only uses are direct calls `f(a, b)` -> `{ let p = a; let q: T = b; BODY }` at each call
+# (beta reduction).  Declines (leaving the closure in place, which then fails closed) when the closure is used as a value, has
+# pattern parameters, or a name its body mentions is re-bound between the definition and a call.
+IDENT_RE = re.compile(r"^[A-Za-z_][A-Za-z0-9_]*$")
+
+
+def inline_closures(toks, log):
+    out = list(toks)
+    progress = True
+    while progress:
+        progress = False
+        i = 0
+        while i + 4 < len(out):
+            if out[i] == "let" and IDENT_RE.match(out[i + 1]) and out[i + 2] == "=" and (out[i + 3] == "|" or (out[i + 3] == "move" and out[i + 4] == "|")):
+                name = out[i + 1]
+                p0 = i + 4 if out[i + 3] == "|" else i + 5
+                p1 = p0
+                while p1 < len(out) and out[p1] != "|":
+                    p1 += 1
+                params_t = out[p0:p1]
+                # split params at top-level commas
+                params, cur, depth = [], [], 0
+                for t in params_t:
+                    if t in ("(", "[", "{", "<"): depth += 1
+                    if t in (")", "]", "}", ">"): depth -= 1
+                    if t == "," and depth == 0:
+                        params.append(cur); cur = []
+                    else:
+                        cur.append(t)
+                if cur: params.append(cur)
+                if any(not IDENT_RE.match(p[0]) or (len(p) > 1 and p[1] != ":") for p in params):
+                    i += 1; continue
+                # body: up to the `;` at depth 0
+                k = p1 + 1
+                while k < len(out) and out[k] != ";":
+                    if out[k] in ("(", "[", "{"):
+                        k = match_close(out, k)
+                    k += 1
+                if k >= len(out):
+                    i += 1; continue
+                body = out[p1 + 1:k]
+                rest = out[k + 1:]
+                # uses
+                uses = [j for j, t in enumerate(rest) if t == name]
+                ok = bool(uses)
+                for j in uses:
+                    if j + 1 >= len(rest) or rest[j + 1] != "(" or (j > 0 and rest[j - 1] in (".", "::", "let", "&", "mut")):
+                        ok = False
+                body_ids = {t for t in body if IDENT_RE.match(t)} - {p[0] for p in params}
+                last = uses[-1] if uses else 0
+                rebound = {rest[j + 1] if rest[j + 1] != "mut" else rest[j + 2] for j in range(min(last, len(rest) - 2)) if rest[j] == "let"}
+                if not ok or (rebound & body_ids) or name in body:
+                    i += 1; continue
+                new_rest, j = [], 0
+                while j < len(rest):
+                    if rest[j] == name and j + 1 < len(rest) and rest[j + 1] == "(":
+                        c = match_close(rest, j + 1)
+                        args_t = rest[j + 2:c]
+                        args, cur, depth = [], [], 0
+                        for t in args_t:
+                            if t in ("(", "[", "{"): depth += 1
+                            if t in (")", "]", "}"): depth -= 1
+                            if t == "," and depth == 0:
+                                args.append(cur); cur = []
+                            else:
+                                cur.append(t)
+                        if cur: args.append(cur)
+                        if len(args) != len(params):
+                            raise Undecided(f"closure `{name}` called with {len(args)} arguments, declared with {len(params)}")
+                        new_rest.append("{")
+                        for p, a in zip(params, args):
+                            new_rest += ["let", *p, "=", *a, ";"]
+                        new_rest += [*body, "}"]
+                        j = c + 1
+                    else:
+                        new_rest.append(rest[j]); j += 1
+                log.append(("R14", text(out[i:k + 1])[:160], f"inlined at {len(uses)} call site(s)", "closure used only by direct calls -> body inlined (beta reduction)"))
+                out = out[:i] + new_rest
+                progress = True
+                break
+            i += 1
+    return out
